@@ -419,5 +419,5 @@ def _strategy(tier):
     return cfg()
 
 
-PARTS = [Part("sinr", _strategy, quick=3000, thorough=120000,
+PARTS = [Part("sinr", _strategy, quick=3000, thorough=60000,
               quick_shards=8)]
